@@ -1,11 +1,17 @@
 /-
-C18 — link and airspace load accounting, as the code does it (after the two `fix:` commits on branch fix-C18).
+C18 — link and airspace load accounting, as the code does it (after the `fix:` commits for F-28, F-28b and F-40).
 
 What is modelled (src/primaite/simulator/network/hardware/base.py `Link`, `WiredNetworkInterface.send_frame`,
 nodes/network/switch.py `SwitchPort.send_frame`, airspace.py `AirSpace`, `WirelessNetworkInterface.send_frame`,
 container.py `Network.pre_timestep`):
 
-* a network is a list of wired links and a list of wireless channels (one per frequency);
+* a network is a list of wired links and a list of wireless channels (one per frequency *in hertz*: `bandwidth_load` and
+  `wireless_interfaces_by_frequency` are keyed by `frequency_hz`).  The capacity, however, is looked up by the frequency
+  *name* of the sending interface (`get_frequency_max_capacity_mbps(sender.frequency.name)`), and two names may be registered
+  on one hz ("they will share a bandwidth", `AirSpaceFrequency`).  So a channel carries one capacity per interface: `caps[i]`
+  is the capacity of the name interface `i` is configured with;
+* disabling an end interface of a wired link leaves the link's load alone (F-40 repaired: `Link.endpoint_down` no longer
+  clears `current_load`); the load is reset by `pre_timestep` only;
 * PrimAITE delivers frames synchronously and depth-first: `Link.transmit_frame` calls the receiving interface, whose node
   may send further frames (over this link or any other) before the call returns.  So what happens inside one top-level
   action is a *tree* of events, `Ev`; the events nested under a `send` are exactly those that happen while the receiver's
@@ -31,13 +37,16 @@ deriving Repr, DecidableEq
 /-- `Link.is_up`: `self.endpoint_a.enabled and self.endpoint_b.enabled`. -/
 def Link.isUp (l : Link) : Bool := l.enA && l.enB
 
-/-- One frequency of the airspace: capacity, `bandwidth_load[hz]` (an absent key reads as 0), and the `enabled` flag of
-every wireless interface configured on that frequency (position = interface number). -/
+/-- One frequency (hz) of the airspace: for every wireless interface configured on it (position = interface number) the
+capacity of the frequency *name* it uses and its `enabled` flag; `bandwidth_load[hz]` (an absent key reads as 0). -/
 structure Chan where
-  cap : Nat
+  caps : List Nat
   load : Nat
   en : List Bool
 deriving Repr, DecidableEq
+
+/-- The largest capacity any interface of the channel is admitted against (with one name per hz: *the* capacity). -/
+def Chan.cap (ch : Chan) : Nat := ch.caps.foldr max 0
 
 structure Net where
   links : List Link
@@ -98,9 +107,11 @@ structure Rec where
   size : Nat
   /-- load of the link / channel just before the send -/
   loadBefore : Nat
-  /-- load and capacity of the link / channel when `send_frame` returned -/
+  /-- load and capacity of the link / channel when `send_frame` returned (wireless: the largest capacity on the hz) -/
   load : Nat
   bw : Nat
+  /-- the capacity the admission test of this send used (wired: the bandwidth; wireless: that of the sender's frequency name) -/
+  capS : Nat
 deriving Repr, DecidableEq
 
 def loadOf (n : Net) (k : Nat) : Nat := match n.links[k]? with | some l => l.load | none => 0
@@ -121,13 +132,13 @@ def runEv (n : Net) : Ev → Net × List Rec
   | .send k fromA s acc nested =>
     match n.links[k]? with
     | none => (n, [{ wireless := false, k, verdict := .nolink, enS := false, enR := false, rcv := [], size := 0,
-                     loadBefore := 0, load := 0, bw := 0 }])
+                     loadBefore := 0, load := 0, bw := 0, capS := 0 }])
     | some l =>
       let enS := if fromA then l.enA else l.enB
       let enR := if fromA then l.enB else l.enA
       let stay (v : Verdict) : Net × List Rec :=
         (n, [{ wireless := false, k, verdict := v, enS, enR, rcv := [], size := s, loadBefore := l.load,
-               load := l.load, bw := l.bw }])
+               load := l.load, bw := l.bw, capS := l.bw }])
       if !enS then stay .disabled                       -- send_frame: `if not self.enabled: return False`
       else if !l.isUp then stay .down                   -- can_transmit_frame: `if self.is_up: … return False`
       else if !admits l.load s l.bw then stay .full      -- dropped at the sender
@@ -137,33 +148,37 @@ def runEv (n : Net) : Ev → Net × List Rec
         if acc then
           let r := runEvs n1 nested
           (r.1, r.2 ++ [{ wireless := false, k, verdict := .carried, enS, enR, rcv := [], size := s,
-                          loadBefore := l.load, load := loadOf r.1 k, bw := bwOf r.1 k }])
+                          loadBefore := l.load, load := loadOf r.1 k, bw := bwOf r.1 k, capS := l.bw }])
         else
           -- the far interface answered False without involving its node: release the reservation
           let n2 : Net := { n with links := n.links.set k { l with load := l.load + s - s } }
           (n2, [{ wireless := false, k, verdict := .rejected, enS, enR, rcv := [], size := s, loadBefore := l.load,
-                  load := loadOf n2 k, bw := bwOf n2 k }])
+                  load := loadOf n2 k, bw := bwOf n2 k, capS := l.bw }])
   | .wsend c i s nested =>
     match n.chans[c]? with
     | none => (n, [{ wireless := true, k := c, verdict := .nolink, enS := false, enR := false, rcv := [], size := 0,
-                     loadBefore := 0, load := 0, bw := 0 }])
+                     loadBefore := 0, load := 0, bw := 0, capS := 0 }])
     | some ch =>
       match ch.en[i]? with
       | none => (n, [{ wireless := true, k := c, verdict := .nolink, enS := false, enR := false, rcv := [], size := 0,
-                       loadBefore := ch.load, load := ch.load, bw := ch.cap }])
+                       loadBefore := ch.load, load := ch.load, bw := ch.cap, capS := 0 }])
       | some enS =>
-        let stay (v : Verdict) : Net × List Rec :=
-          (n, [{ wireless := true, k := c, verdict := v, enS, enR := false, rcv := [], size := s,
-                 loadBefore := ch.load, load := ch.load, bw := ch.cap }])
-        if !enS then stay .disabled
-        else if !admits ch.load s ch.cap then stay .full
-        else
-          -- AirSpace.transmit: add the load, then hand the frame to every enabled other interface of the frequency
-          let n1 : Net := { n with chans := n.chans.set c { ch with load := ch.load + s } }
-          let rcv := receivers ch.en i
-          let r := runEvs n1 nested
-          (r.1, r.2 ++ [{ wireless := true, k := c, verdict := .carried, enS, enR := true, rcv, size := s,
-                          loadBefore := ch.load, load := cloadOf r.1 c, bw := capOf r.1 c }])
+        match ch.caps[i]? with
+        | none => (n, [{ wireless := true, k := c, verdict := .nolink, enS := false, enR := false, rcv := [], size := 0,
+                         loadBefore := ch.load, load := ch.load, bw := ch.cap, capS := 0 }])
+        | some capI =>
+          let stay (v : Verdict) : Net × List Rec :=
+            (n, [{ wireless := true, k := c, verdict := v, enS, enR := false, rcv := [], size := s,
+                   loadBefore := ch.load, load := ch.load, bw := ch.cap, capS := capI }])
+          if !enS then stay .disabled
+          else if !admits ch.load s capI then stay .full   -- capacity of the sender's frequency *name*
+          else
+            -- AirSpace.transmit: add the load (keyed by hz), then hand the frame to every enabled other interface of the hz
+            let n1 : Net := { n with chans := n.chans.set c { ch with load := ch.load + s } }
+            let rcv := receivers ch.en i
+            let r := runEvs n1 nested
+            (r.1, r.2 ++ [{ wireless := true, k := c, verdict := .carried, enS, enR := true, rcv, size := s,
+                            loadBefore := ch.load, load := cloadOf r.1 c, bw := capOf r.1 c, capS := capI }])
   | .setEn k endA v =>
     match n.links[k]? with
     | none => (n, [])
@@ -171,10 +186,9 @@ def runEv (n : Net) : Ev → Net × List Rec
       let cur := if endA then l.enA else l.enB
       if cur == v then (n, [])        -- enable() of an enabled / disable() of a disabled interface changes nothing
       else
+        -- disable(): `endpoint_down` leaves `current_load` alone (F-40 repaired); only the flag changes
         let l1 : Link := if endA then { l with enA := v } else { l with enB := v }
-        -- disable(): `endpoint_down` → the link is not up any more → `current_load = 0.0`
-        let l2 : Link := if v then l1 else { l1 with load := 0 }
-        ({ n with links := n.links.set k l2 }, [])
+        ({ n with links := n.links.set k l1 }, [])
   | .wsetEn c i v =>
     match n.chans[c]? with
     | none => (n, [])
